@@ -1633,6 +1633,12 @@ class Pipeline:
                 pipeline_str += f"    Possible input arguments: {input_args}\n"
         return pipeline_str
 
+    def __setstate__(self, state: dict) -> None:
+        """Restore the state; the functions' (weak, unpickled) links to this pipeline are re-established."""
+        self.__dict__.update(state)
+        for f in self.functions:
+            f._pipelines.add(self)
+
     def copy(self, **update: Any) -> Pipeline:
         """Return a copy of the pipeline.
 
